@@ -5,8 +5,8 @@
   holder, every struct with exactly its schema's fields).  For schemas without `nocopy` fields
   (`S.rtSide`; views are not Go values of the model's typing).
 
-  The decoder stores a bool byte as it is (decodeFixedSizeTypes: "for tBOOL 1->true, 2->true/false"),
-  so a message carrying a bool byte ≥ 2 produces a value outside Go's bool: `canonBools` excludes it.
+  (Until D16 the decoder stored a bool byte as it was and the theorem needed the hypothesis that the
+  message's bool bytes are 0 / 1; now `b == 1` is stored and the statement is unconditional.)
 -/
 import Frugal.Proofs.ReadNorm
 import Frugal.Proofs.ReqEverywhere
@@ -15,36 +15,16 @@ set_option linter.unusedSimpArgs false
 set_option linter.unusedVariables false
 namespace Frugal
 
-mutual
-def canonBools : TVal → Bool
-  | .bool n => n < 2
-  | .strct fs => canonBoolsFields fs
-  | .map _ _ es => canonBoolsEntries es
-  | .set _ xs => canonBoolsList xs
-  | .list _ xs => canonBoolsList xs
-  | _ => true
-def canonBoolsFields : List (Nat × TVal) → Bool
-  | [] => true
-  | (_, v) :: r => canonBools v && canonBoolsFields r
-def canonBoolsEntries : List (TVal × TVal) → Bool
-  | [] => true
-  | (k, v) :: r => canonBools k && canonBools v && canonBoolsEntries r
-def canonBoolsList : List TVal → Bool
-  | [] => true
-  | v :: r => canonBools v && canonBoolsList r
-end
-
 theorem sext32to64_lt (n : Nat) (h : n < 4294967296) : sext32to64 n < 18446744073709551616 := by
   unfold sext32to64; split <;> omega
 
 theorem readFixed_typed (S : Schema) (k : Kind) (tv : TVal) (w : Val) (hfx : specFixed k.tt > 0)
-    (hw : wf tv = true) (hc : canonBools tv = true) (h : readFixed k.tt tv = .ok w) :
+    (hw : wf tv = true) (h : readFixed k.tt tv = .ok w) :
     hasTy S (.base k) w = true := by
   cases tv with
   | bool n =>
-    simp only [canonBools, decide_eq_true_eq] at hc
     cases k <;> simp [readFixed, Kind.tt] at h
-    subst h; simp [hasTy, hc]
+    subst h; simp only [hasTy]; refine decide_eq_true ?_; split <;> omega
   | i8 n =>
     simp only [wf, decide_eq_true_eq] at hw
     cases k <;> simp [readFixed, Kind.tt] at h
@@ -163,15 +143,15 @@ theorem field_ok_of_mem (sid : Nat) (f : Field) (hf : f ∈ (S.get sid).fields) 
 
 mutual
 theorem readVal_typed : ∀ (tv : TVal) (fuel : Nat) (t : Ty) (tail : Nat) (dest w : Val),
-    t.ok = true → t.isPtr = false → wf tv = true → canonBools tv = true → hasTy S t dest = true →
+    t.ok = true → t.isPtr = false → wf tv = true → hasTy S t dest = true →
     readVal P S total fuel t tv tail dest = .ok w → hasTy S t w = true
-  | tv, 0, t, tail, dest, w, _, _, _, _, _, h => by simp [readVal] at h
-  | tv, fuel + 1, t, tail, dest, w, hok, hnp, hw, hc, hd, h => by
+  | tv, 0, t, tail, dest, w, _, _, _, _, h => by simp [readVal] at h
+  | tv, fuel + 1, t, tail, dest, w, hok, hnp, hw, hd, h => by
     by_cases hfx : specFixed t.tt > 0
     · cases t with
       | base k =>
         rw [readVal] at h; simp only [hfx, ↓reduceIte] at h
-        exact readFixed_typed S k tv w hfx hw hc h
+        exact readFixed_typed S k tv w hfx hw h
       | ptr e => simp [Ty.isPtr] at hnp
       | strct s => simp [Ty.tt, specFixed] at hfx
       | map k v => simp [Ty.tt, specFixed] at hfx
@@ -191,12 +171,11 @@ theorem readVal_typed : ∀ (tv : TVal) (fuel : Nat) (t : Ty) (tail : Nat) (dest
         | map a b es =>
           rw [readVal] at h; simp only [hfx, ↓reduceIte] at h
           simp only [wf, Bool.and_eq_true] at hw
-          simp only [canonBools] at hc
           split at h
           · cases h
           · obtain ⟨es', h0, rfl⟩ := mapv_ok_inv _ _ _ h
             simp only [hasTy, Bool.not_false, Bool.true_or, Bool.true_and]
-            exact readEntries_typed es fuel kt vt tail [] es' a b hok.1.1.1 hok.1.1.2 hw.2 hc rfl h0
+            exact readEntries_typed es fuel kt vt tail [] es' a b hok.1.1.1 hok.1.1.2 hw.2 rfl h0
         | _ => unfold readVal at h; simp only [hfx, ↓reduceIte] at h; cases h
       | list s et =>
         simp only [Ty.ok, Bool.and_eq_true] at hok
@@ -204,32 +183,29 @@ theorem readVal_typed : ∀ (tv : TVal) (fuel : Nat) (t : Ty) (tail : Nat) (dest
         | list a xs =>
           rw [readVal] at h; simp only [hfx, ↓reduceIte] at h
           simp only [wf, Bool.and_eq_true] at hw
-          simp only [canonBools] at hc
           split at h
           · cases h
           · split at h
             · cases h; simp [hasTy, hasTyList]
             · obtain ⟨xs', h0, rfl⟩ := mapv_ok_inv _ _ _ h
               simp only [hasTy, Bool.not_false, Bool.true_or, Bool.true_and]
-              exact readList_typed xs fuel et tail xs' a hok.1 hw.2 hc h0
+              exact readList_typed xs fuel et tail xs' a hok.1 hw.2 h0
         | set a xs =>
           rw [readVal] at h; simp only [hfx, ↓reduceIte] at h
           simp only [wf, Bool.and_eq_true] at hw
-          simp only [canonBools] at hc
           split at h
           · cases h
           · split at h
             · cases h; simp [hasTy, hasTyList]
             · obtain ⟨xs', h0, rfl⟩ := mapv_ok_inv _ _ _ h
               simp only [hasTy, Bool.not_false, Bool.true_or, Bool.true_and]
-              exact readList_typed xs fuel et tail xs' a hok.1 hw.2 hc h0
+              exact readList_typed xs fuel et tail xs' a hok.1 hw.2 h0
         | _ => unfold readVal at h; simp only [hfx, ↓reduceIte] at h; cases h
       | strct sid =>
         cases tv with
         | strct fs =>
           rw [readVal_struct_any] at h
           simp only [wf] at hw
-          simp only [canonBools] at hc
           obtain ⟨ds, hh, hi, hds⟩ := initDest_typed S hside sid dest hd
           have hhold : ((S.get sid).hasHolder || hh.isEmpty) = true := by
             cases dest with
@@ -247,7 +223,7 @@ theorem readVal_typed : ∀ (tv : TVal) (fuel : Nat) (t : Ty) (tail : Nat) (dest
               split at h
               · cases h
               · cases h
-                have hfs := readFields_typed fs f sid (tail + 1) _ st hw hc hds hl
+                have hfs := readFields_typed fs f sid (tail + 1) _ st hw hds hl
                 simp only [hasTy, Bool.and_eq_true]
                 refine ⟨?_, hfs⟩
                 split
@@ -257,21 +233,20 @@ theorem readVal_typed : ∀ (tv : TVal) (fuel : Nat) (t : Ty) (tail : Nat) (dest
             · cases h
         | _ => unfold readVal at h; simp only [hfx, ↓reduceIte] at h; cases h
 theorem readFields_typed : ∀ (fs : List (Nat × TVal)) (fuel : Nat) (sid : Nat) (tail : Nat) (st st' : LoopSt),
-    wfFields fs = true → canonBoolsFields fs = true → hasTyFields S (S.get sid).fields st.fs = true →
+    wfFields fs = true → hasTyFields S (S.get sid).fields st.fs = true →
     readFields P S total fuel (S.get sid) fs tail st = .ok st' →
     hasTyFields S (S.get sid).fields st'.fs = true
-  | [], _, _, _, st, st', _, _, hs, h => by
+  | [], _, _, _, st, st', _, hs, h => by
     rw [readFields] at h; cases h; exact hs
-  | (id, v) :: r, fuel, sid, tail, st, st', hw, hc, hs, h => by
+  | (id, v) :: r, fuel, sid, tail, st, st', hw, hs, h => by
     rw [readFields] at h
     simp only [wfFields, Bool.and_eq_true, decide_eq_true_eq] at hw
-    simp only [canonBoolsFields, Bool.and_eq_true] at hc
     cases hk : lookupKnown (S.get sid) id v.tag with
     | none =>
       simp only [hk] at h
       split at h
       · cases h
-      · refine readFields_typed r fuel sid tail _ st' hw.2 hc.2 ?_ h
+      · refine readFields_typed r fuel sid tail _ st' hw.2 ?_ h
         cases (S.get sid).hasHolder <;> simpa using hs
     | some p =>
       obtain ⟨ix, f⟩ := p
@@ -283,7 +258,7 @@ theorem readFields_typed : ∀ (fs : List (Nat × TVal)) (fuel : Nat) (sid : Nat
       have hslot := hasTyFields_getD S _ _ ix f hfix hs
       split at h
       · rename_i x hx
-        refine readFields_typed r fuel sid tail _ st' hw.2 hc.2 ?_ h
+        refine readFields_typed r fuel sid tail _ st' hw.2 ?_ h
         refine hasTyFields_set S _ _ ix f x hfix hs ?_
         rw [readField] at hx
         simp only [hnc, Bool.false_eq_true, ↓reduceIte] at hx
@@ -294,59 +269,57 @@ theorem readFields_typed : ∀ (fs : List (Nat × TVal)) (fuel : Nat) (sid : Nat
           obtain ⟨k, hdk, htk⟩ := fixed_deref_base f.ty hfok hfx
           rw [hdk]
           rw [htk] at h0 hfx
-          exact readFixed_typed S k v w0 hfx hw.1.2 hc.1 h0
+          exact readFixed_typed S k v w0 hfx hw.1.2 h0
         · obtain ⟨w0, h0, rfl⟩ := mapv_ok_inv _ _ _ hx
           have hd := deref_ok f.ty hfok
-          exact wrapPtr_typed S _ _ hfok (readVal_typed v fuel f.ty.deref _ _ w0 hd.1 hd.2 hw.1.2 hc.1
+          exact wrapPtr_typed S _ _ hfok (readVal_typed v fuel f.ty.deref _ _ w0 hd.1 hd.2 hw.1.2
             (freshTarget_typed S hside f.ty _ hslot) h0)
       · cases h
       · cases h
 theorem readList_typed : ∀ (xs : List TVal) (fuel : Nat) (et : Ty) (tail : Nat) (vs : List Val) (a : Nat),
-    et.ok = true → wfList a xs = true → canonBoolsList xs = true →
+    et.ok = true → wfList a xs = true →
     readList P S total fuel et xs tail = .ok vs → hasTyList S et vs = true
-  | [], _, _, _, vs, _, _, _, _, h => by rw [readList] at h; cases h; rfl
-  | x :: r, fuel, et, tail, vs, a, hok, hw, hc, h => by
+  | [], _, _, _, vs, _, _, _, h => by rw [readList] at h; cases h; rfl
+  | x :: r, fuel, et, tail, vs, a, hok, hw, h => by
     rw [readList] at h
     simp only [wfList, Bool.and_eq_true] at hw
-    simp only [canonBoolsList, Bool.and_eq_true] at hc
     split at h
     · rename_i w hx
       split at h
       · rename_i ws hws
         cases h
         simp only [hasTyList, Bool.and_eq_true]
-        exact ⟨readSlot_typed x fuel et _ _ w hok hw.1.2 hc.1 (zeroVal_typed S hside et) hx,
-          readList_typed r fuel et tail ws a hok hw.2 hc.2 hws⟩
+        exact ⟨readSlot_typed x fuel et _ _ w hok hw.1.2 (zeroVal_typed S hside et) hx,
+          readList_typed r fuel et tail ws a hok hw.2 hws⟩
       · cases h
       · cases h
     · cases h
     · cases h
 theorem readEntries_typed : ∀ (es : List (TVal × TVal)) (fuel : Nat) (kt vt : Ty) (tail : Nat)
     (acc res : List (Val × Val)) (a b : Nat), kt.ok = true → vt.ok = true →
-    wfEntries a b es = true → canonBoolsEntries es = true → hasTyEntries S kt vt acc = true →
+    wfEntries a b es = true → hasTyEntries S kt vt acc = true →
     readEntries P S total fuel kt vt es tail acc = .ok res → hasTyEntries S kt vt res = true
-  | [], _, _, _, _, acc, res, _, _, _, _, _, _, ha, h => by
+  | [], _, _, _, _, acc, res, _, _, _, _, _, ha, h => by
     rw [readEntries] at h; cases h; exact ha
-  | (x, y) :: r, fuel, kt, vt, tail, acc, res, a, b, hk, hv, hw, hc, ha, h => by
+  | (x, y) :: r, fuel, kt, vt, tail, acc, res, a, b, hk, hv, hw, ha, h => by
     rw [readEntries] at h
     simp only [wfEntries, Bool.and_eq_true] at hw
-    simp only [canonBoolsEntries, Bool.and_eq_true] at hc
     split at h
     · rename_i k hkx
       split at h
       · rename_i v hvx
-        have tk := readSlot_typed x fuel kt _ _ k hk hw.1.1.2 hc.1.1 (zeroVal_typed S hside kt) hkx
-        have tv := readSlot_typed y fuel vt _ _ v hv hw.1.2 hc.1.2 (zeroVal_typed S hside vt) hvx
-        exact readEntries_typed r fuel kt vt tail _ res a b hk hv hw.2 hc.2
+        have tk := readSlot_typed x fuel kt _ _ k hk hw.1.1.2 (zeroVal_typed S hside kt) hkx
+        have tv := readSlot_typed y fuel vt _ _ v hv hw.1.2 (zeroVal_typed S hside vt) hvx
+        exact readEntries_typed r fuel kt vt tail _ res a b hk hv hw.2
           (mapInsert_typed S kt vt acc k v ha tk tv) h
       · cases h
       · cases h
     · cases h
     · cases h
 theorem readSlot_typed : ∀ (x : TVal) (fuel : Nat) (t : Ty) (tail : Nat) (slot w : Val),
-    t.ok = true → wf x = true → canonBools x = true → hasTy S t slot = true →
+    t.ok = true → wf x = true → hasTy S t slot = true →
     readSlot P S total fuel t x tail slot = .ok w → hasTy S t w = true
-  | x, fuel, t, tail, slot, w, hok, hw, hc, hs, h => by
+  | x, fuel, t, tail, slot, w, hok, hw, hs, h => by
     rw [readSlot] at h
     have hd := deref_ok t hok
     split at h
@@ -356,16 +329,16 @@ theorem readSlot_typed : ∀ (x : TVal) (fuel : Nat) (t : Ty) (tail : Nat) (slot
       obtain ⟨k, hdk, htk⟩ := fixed_deref_base t hok hfx
       rw [hdk]
       rw [htk] at h0 hfx
-      exact readFixed_typed S k x w0 hfx hw hc h0
+      exact readFixed_typed S k x w0 hfx hw h0
     · obtain ⟨w0, h0, rfl⟩ := mapv_ok_inv _ _ _ h
-      exact wrapPtr_typed S _ _ hok (readVal_typed x fuel t.deref _ _ w0 hd.1 hd.2 hw hc
+      exact wrapPtr_typed S _ _ hok (readVal_typed x fuel t.deref _ _ w0 hd.1 hd.2 hw
         (freshTarget_typed S hside t _ hs) h0)
 end
 
 omit total in
 /-- top level: `readMessage` into a typed destination returns a typed value -/
 theorem readMessage_typed (sid : Nat) (fs : List (Nat × TVal)) (trailing : Nat) (dest w : Val)
-    (hw : wfFields fs = true) (hc : canonBoolsFields fs = true) (hd : hasTy S (.strct sid) dest = true)
+    (hw : wfFields fs = true) (hd : hasTy S (.strct sid) dest = true)
     (h : readMessage P S sid fs trailing dest = .ok w) : hasTy S (.strct sid) w = true := by
   unfold readMessage at h
   cases hm : P.maxDepth with
@@ -382,7 +355,7 @@ theorem readMessage_typed (sid : Nat) (fs : List (Nat × TVal)) (trailing : Nat)
         · cases h
         · cases h
           have hfs := readFields_typed P S ((ser (.strct fs)).length + trailing) hS hside fs f sid (trailing + 1)
-            _ st hw hc hd.2 hl
+            _ st hw hd.2 hl
           simp only [hasTy, Bool.and_eq_true]
           refine ⟨?_, hfs⟩
           split
